@@ -84,11 +84,52 @@ structure Change where
   comments : List Bytes
   deriving Repr, Inhabited
 
-/-- first invalid byte of a change name and its index -/
-def validateName : Nat → Bytes → Option (Nat × UInt8)
-  | _, [] => none
-  | i, b :: bs =>
-      if isLetterB b || b == 95 || (i > 0 && isDigitB b) then validateName (i + 1) bs
+/-- Unicode classification of the runes outside ASCII (`unicode.IsLetter`, `unicode.IsDigit`): a parameter of the
+model, supplied by the harness from Go's tables for the runes that occur in the input. -/
+structure Uni where
+  letter : Nat → Bool
+  digit : Nat → Bool
+
+def Uni.ascii : Uni := { letter := fun _ => false, digit := fun _ => false }
+
+def isCont (b : UInt8) : Bool := 128 ≤ b && b < 192
+
+/-- the rune that starts at the head of the bytes, as `for i, ch := range s` decodes it: (code point, width);
+an invalid or truncated sequence is U+FFFD of width 1 -/
+def decodeRune : Bytes → Nat × Nat
+  | [] => (0, 0)
+  | b :: rest =>
+      if b < 128 then (b.toNat, 1)
+      else if 192 ≤ b && b < 224 then
+        (match rest with
+         | c1 :: _ => if isCont c1 then ((b.toNat - 192) * 64 + (c1.toNat - 128), 2) else (65533, 1)
+         | _ => (65533, 1))
+      else if 224 ≤ b && b < 240 then
+        (match rest with
+         | c1 :: c2 :: _ => if isCont c1 && isCont c2 then ((b.toNat - 224) * 4096 + (c1.toNat - 128) * 64 + (c2.toNat - 128), 3) else (65533, 1)
+         | _ => (65533, 1))
+      else if 240 ≤ b && b < 248 then
+        (match rest with
+         | c1 :: c2 :: c3 :: _ =>
+             if isCont c1 && isCont c2 && isCont c3 then
+               ((b.toNat - 240) * 262144 + (c1.toNat - 128) * 4096 + (c2.toNat - 128) * 64 + (c3.toNat - 128), 4)
+             else (65533, 1)
+         | _ => (65533, 1))
+      else (65533, 1)
+
+/-- may the rune `cp` stand at byte index `i` of a change name? -/
+def validRune (u : Uni) (i : Nat) (cp : Nat) : Bool :=
+  if cp < 128 then isLetterB cp.toUInt8 || cp == 95 || (i > 0 && isDigitB cp.toUInt8)
+  else u.letter cp || (i > 0 && u.digit cp)
+
+/-- `validateChangeName`: byte index and first byte of the first rune that may not stand in a change name
+(`fuel` = number of bytes suffices) -/
+def validateName (u : Uni) : Nat → Nat → Bytes → Option (Nat × UInt8)
+  | 0, _, _ => none
+  | _, _, [] => none
+  | fuel + 1, i, b :: bs =>
+      let r := decodeRune (b :: bs)
+      if validRune u i r.1 then validateName u fuel (i + r.2) ((b :: bs).drop r.2)
       else some (i, b)
 
 /-- non-comment lines paired with the comment run directly above each of them -/
@@ -99,7 +140,7 @@ def attachComments : List Line → List Bytes → List (Line × List Bytes)
       else (l, acc) :: attachComments ls []
 
 /-- `readName`: the name, or an error -/
-def readName (l : Line) : Bytes × Option Err :=
+def readName (u : Uni) (l : Line) : Bytes × Option Err :=
   let t := l.text
   if t == [atB, atB] then ([], none)
   else if t.length > 2 && t.head? == some atB && t.getLast? == some atB then
@@ -108,7 +149,7 @@ def readName (l : Line) : Bytes × Option Err :=
     let allSpace := lead == inner.length
     let shift := if allSpace then 1 else 1 + lead
     let name := if allSpace then [] else ((inner.drop lead).reverse.dropWhile isSpaceB).reverse
-    match validateName 0 name with
+    match validateName u name.length 0 name with
     | none => (name, none)
     | some (i, ch) => ([], some ⟨l.off + shift + i, .badName ch⟩)
   else ([], some ⟨l.off, .badHeader⟩)
@@ -127,11 +168,11 @@ def readPatch : List (Line × List Bytes) → List Line → List Line × List (L
 
 /-- `readProgram` with explicit fuel (the number of lines suffices: every change consumes at
 least its header line) -/
-def readProgram (eofOff : Nat) : Nat → List (Line × List Bytes) → List Change × List Err
+def readProgram (u : Uni) (eofOff : Nat) : Nat → List (Line × List Bytes) → List Change × List Err
   | 0, _ => ([], [])
   | _, [] => ([], [])
   | fuel + 1, (h, cs) :: rest =>
-      let (name, e1) := readName h
+      let (name, e1) := readName u h
       match readMeta rest [] with
       | none =>
           -- EOF inside the metavariable section: Meta = nil, AtPos = NoPos, Patch empty
@@ -139,13 +180,13 @@ def readProgram (eofOff : Nat) : Nat → List (Line × List Bytes) → List Chan
            e1.toList ++ [⟨eofOff, .eofMeta⟩])
       | some (m, atl, rest') =>
           let (p, rest'') := readPatch rest' []
-          let (chs, es) := readProgram eofOff fuel rest''
+          let (chs, es) := readProgram u eofOff fuel rest''
           ({ headerOff := some h.off, name := name, metaL := m, atOff := some atl.off, patch := p, comments := cs } :: chs,
            e1.toList ++ es)
 
-def split (content : Bytes) : List Change × List Err :=
+def split (u : Uni) (content : Bytes) : List Change × List Err :=
   let ls := attachComments (rawLines content) []
-  let (chs, es) := readProgram content.length (ls.length + 1) ls
+  let (chs, es) := readProgram u content.length (ls.length + 1) ls
   if chs.isEmpty then (chs, es ++ [⟨content.length, .noChange⟩]) else (chs, es)
 
 end Gopatch.Sec
